@@ -12,7 +12,9 @@
 //! * `chk_curve`  curved paths, shape helpers of the path builder / `tessellate_ellipse`, and pairs
 //!                of sub-paths sharing a curved edge: the real fill output is handed to the Lean
 //!                slab checker together with an independent fine flattening of the EXACT boundary
-//!                (certified deviation ε_ref), band = tolerance + ε_ref + Bézier-arc allowance.
+//!                (certified deviation ε_ref), band = tolerance + ε_ref + Bézier-arc allowance (the proved
+//!                deviations of the helpers' Béziers: `ALLOW_*`); a last block of cases has large
+//!                radius / tolerance (circles, near-circular ellipses), where that allowance decides.
 
 use lyon_path::builder::{BorderRadii, PathBuilder};
 use lyon_path::polygon::Polygon;
@@ -25,6 +27,24 @@ use lyon_tessellation::geometry_builder::{BuffersBuilder, Positions};
 use lyon_tessellation::{FillOptions, FillRule, FillTessellator};
 use vh::fillgen::{put_edges, put_tris, History, Mesh};
 use vh::{CaseOut, Ctx, Oracle, Out, Rng};
+
+// Bézier-arc allowances of the `chk_curve` band, as fractions of the (larger / corner) radius.  The
+// shape helpers replace arcs by Béziers BEFORE anything is flattened; how far those Béziers are from
+// the exact shape is PROVED in Lean (exact arithmetic, every input), and the band uses the proved
+// constants (an allowance below the true deviation is a false alarm for large radius / tolerance:
+// the former 3e-3 for quadratic arcs was below their true maximum 3.14e-3):
+/// one cubic per quarter circle, constant 0.55191505 (`add_circle`, corners of `add_rounded_rectangle`):
+/// `Lyon.C03d.add_circle_radial_error`, `Lyon.C03d.rounded_rect_outline` (±2·10⁻⁴·r; true max 1.96·10⁻⁴)
+const ALLOW_CUBIC_QUARTER: f64 = 2e-4;
+/// quadratic arc pieces of at most 45° (`add_ellipse`, `tessellate_ellipse`, SVG `arc_to`: all through
+/// `Arc::for_each_quadratic_bezier`; `FillBuilder::add_circle`): `Lyon.C13.arc_quads_near_ellipse_real`,
+/// `Lyon.C03e.add_ellipse_radial_error_real`, `Lyon.C03d.fill_add_circle_radial_error` (≤ 3.2·10⁻³·r
+/// outside; true max 3.14·10⁻³)
+const ALLOW_QUAD_ARC: f64 = 3.2e-3;
+/// cubic arc pieces of at most 90° (`Arc::for_each_cubic_bezier`; no builder driven here uses them):
+/// `Lyon.C13.arc_cubics_near_ellipse_real` (≤ 2.0·10⁻³·r inside)
+#[allow(dead_code)]
+const ALLOW_CUBIC_ARC: f64 = 2.0e-3;
 
 fn shape_case(ctx: &mut Ctx) {
     ctx.case("shape:32", |rng| {
@@ -493,14 +513,14 @@ fn curve_case(ctx: &mut Ctx) {
                     let path = path_b.build();
                     let (e, eps) = ellipse_edges(c, vector(r, r), 0.0, want == Winding::Positive, eps_t);
                     let mut bb = BuffersBuilder::new(&mut mesh, Positions);
-                    (tess.tessellate_path(&path, &opts, &mut bb).map_err(|e| format!("{:?}", e)), e, eps, 3e-4 * r as f64)
+                    (tess.tessellate_path(&path, &opts, &mut bb).map_err(|e| format!("{:?}", e)), e, eps, ALLOW_CUBIC_QUARTER * r as f64)
                 }
                 4 => {
                     path_b.add_ellipse(c, vector(r, r2), Angle::radians(rot), want);
                     let path = path_b.build();
                     let (e, eps) = ellipse_edges(c, vector(r, r2), rot, want == Winding::Positive, eps_t);
                     let mut bb = BuffersBuilder::new(&mut mesh, Positions);
-                    (tess.tessellate_path(&path, &opts, &mut bb).map_err(|e| format!("{:?}", e)), e, eps, 3e-3 * r.max(r2) as f64)
+                    (tess.tessellate_path(&path, &opts, &mut bb).map_err(|e| format!("{:?}", e)), e, eps, ALLOW_QUAD_ARC * r.max(r2) as f64)
                 }
                 5 => {
                     let (e, eps) = ellipse_edges(c, vector(r, r2), rot, want == Winding::Positive, eps_t);
@@ -509,7 +529,7 @@ fn curve_case(ctx: &mut Ctx) {
                         tess.tessellate_ellipse(c, vector(r, r2), Angle::radians(rot), want, &opts, &mut bb).map_err(|e| format!("{:?}", e)),
                         e,
                         eps,
-                        3e-3 * r.max(r2) as f64,
+                        ALLOW_QUAD_ARC * r.max(r2) as f64,
                     )
                 }
                 6 => {
@@ -566,7 +586,7 @@ fn curve_case(ctx: &mut Ctx) {
                     let edges: Vec<(Point, Point)> = (0..m).map(|i| (pts[i], pts[(i + 1) % m])).collect();
                     let eps = rad as f64 * (1.0 - (std::f64::consts::PI / (4.0 * n as f64)).cos()) + 2e-5 * (w + h) as f64;
                     let mut bb = BuffersBuilder::new(&mut mesh, Positions);
-                    (tess.tessellate_path(&path, &opts, &mut bb).map_err(|e| format!("{:?}", e)), edges, eps, 3e-3 * rad as f64)
+                    (tess.tessellate_path(&path, &opts, &mut bb).map_err(|e| format!("{:?}", e)), edges, eps, ALLOW_CUBIC_QUARTER * rad as f64)
                 }
                 8 => {
                     // closed paths made of SVG elliptical arcs (+ lines), built with the SVG builder;
@@ -629,7 +649,7 @@ fn curve_case(ctx: &mut Ctx) {
                     let edges: Vec<(Point, Point)> = (0..m).map(|i| (pts[i], pts[(i + 1) % m])).collect();
                     let sc = pts.iter().fold(1.0f64, |m, a| m.max(a.x.abs() as f64).max(a.y.abs() as f64));
                     let mut bb = BuffersBuilder::new(&mut mesh, Positions);
-                    (tess.tessellate_path(&path, &opts, &mut bb).map_err(|e| format!("{:?}", e)), edges, eps + 2e-6 * sc, 3e-3 * rmax)
+                    (tess.tessellate_path(&path, &opts, &mut bb).map_err(|e| format!("{:?}", e)), edges, eps + 2e-6 * sc, ALLOW_QUAD_ARC * rmax)
                 }
                 _ => {
                     let (e, eps) = ellipse_edges(c, vector(r, r), 0.0, true, eps_t);
@@ -966,6 +986,97 @@ fn rng_f(v: &[Point], i: usize) -> f32 {
     v[i].x
 }
 
+// chk_curve, large radius / tolerance: circles and near-circular ellipses whose Bézier outline is
+// farther from the exact shape than the tolerance — the regime in which the Bézier-arc allowance of
+// the band decides (with the former allowance 3e-3·r for quadratic arcs these inputs were reported
+// as covering points outside the shape, a false alarm: the deviation 3.14e-3·r is the helpers' by
+// construction, `ALLOW_QUAD_ARC`).
+fn risky_case(ctx: &mut Ctx) {
+    ctx.case_check("chk_curve", |rng| {
+        let kind = rng.below(4);
+        let tol = *rng.pick(&[0.01f32, 0.02]);
+        let ratio = rng.uniform(10000.0, 24000.0);
+        let r = (tol as f64 * ratio) as f32;
+        let r2 = if rng.chance(1, 2) { r } else { r * (1.0 + rng.uniform(-0.03, 0.03) as f32) };
+        let rot = rng.uniform(-3.0, 3.0) as f32;
+        let rule = if rng.chance(1, 2) { FillRule::EvenOdd } else { FillRule::NonZero };
+        let want = if rng.chance(1, 2) { Winding::Positive } else { Winding::Negative };
+        let c = point(rng.uniform(-5.0, 5.0) as f32, rng.uniform(-5.0, 5.0) as f32);
+        let names = ["big-fillbuilder-circle", "big-ellipse", "big-tess-ellipse", "big-circle"];
+        let name = names[kind as usize];
+        let mut args = Out::new();
+        args.t(name).f(tol).u(if rule == FillRule::EvenOdd { 0 } else { 1 }).p(c).f(r).f(r2).f(rot).b(want == Winding::Positive);
+        let tag = format!("curve {} tol={} r/tol={:.0e}", name, tol, ratio);
+        (args, tag, move || {
+            let opts = FillOptions::tolerance(tol).with_fill_rule(rule);
+            let mut tess = FillTessellator::new();
+            let mut mesh = Mesh::new();
+            let eps_t = tol as f64 / 8.0;
+            let ccw = want == Winding::Positive;
+            let (res, edges, eps, allow): (Result<(), String>, Vec<(Point, Point)>, f64, f64) = match kind {
+                0 => {
+                    let (e, eps) = ellipse_edges(c, vector(r, r), 0.0, ccw, eps_t);
+                    let mut bb = BuffersBuilder::new(&mut mesh, Positions);
+                    let mut b = tess.builder(&opts, &mut bb);
+                    b.add_circle(c, r, want);
+                    (b.build().map_err(|e| format!("{:?}", e)), e, eps, ALLOW_QUAD_ARC * r as f64)
+                }
+                1 => {
+                    let mut path_b = Path::builder();
+                    path_b.add_ellipse(c, vector(r, r2), Angle::radians(rot), want);
+                    let path = path_b.build();
+                    let (e, eps) = ellipse_edges(c, vector(r, r2), rot, ccw, eps_t);
+                    let mut bb = BuffersBuilder::new(&mut mesh, Positions);
+                    (tess.tessellate_path(&path, &opts, &mut bb).map_err(|e| format!("{:?}", e)), e, eps, ALLOW_QUAD_ARC * r.max(r2) as f64)
+                }
+                2 => {
+                    // radii differ (equal radii go to the dedicated circle routine: family shape:32 / kind tess-circle)
+                    let r2 = if r2 == r { r * 0.99 } else { r2 };
+                    let (e, eps) = ellipse_edges(c, vector(r, r2), rot, ccw, eps_t);
+                    let mut bb = BuffersBuilder::new(&mut mesh, Positions);
+                    (
+                        tess.tessellate_ellipse(c, vector(r, r2), Angle::radians(rot), want, &opts, &mut bb).map_err(|e| format!("{:?}", e)),
+                        e,
+                        eps,
+                        ALLOW_QUAD_ARC * r.max(r2) as f64,
+                    )
+                }
+                _ => {
+                    let mut path_b = Path::builder();
+                    path_b.add_circle(c, r, want);
+                    let path = path_b.build();
+                    let (e, eps) = ellipse_edges(c, vector(r, r), 0.0, ccw, eps_t);
+                    let mut bb = BuffersBuilder::new(&mut mesh, Positions);
+                    (tess.tessellate_path(&path, &opts, &mut bb).map_err(|e| format!("{:?}", e)), e, eps, ALLOW_CUBIC_QUARTER * r as f64)
+                }
+            };
+            let mut o = Out::new();
+            let mut orc = Oracle::new();
+            if let Err(e) = res {
+                o.t("err").t(&e.replace(' ', "_"));
+                orc.skip("tessellation-error");
+                return (CaseOut { imp: o, orcl: orc.verdict }, None);
+            }
+            o.t("ok").u(mesh.vertices.len() as u64).u((mesh.indices.len() / 3) as u64);
+            let nv = mesh.vertices.len() as u32;
+            orc.check(mesh.indices.iter().all(|&i| i < nv), "curve/index-valid", "generic", || "index out of range".into());
+            orc.check(mesh.vertices.iter().all(|p| p.x.is_finite() && p.y.is_finite()), "curve/finite", "generic", || "non-finite vertex".into());
+            if orc.failed() {
+                return (CaseOut { imp: o, orcl: orc.verdict }, None);
+            }
+            let mut cc = Out::new();
+            cc.u(if rule == FillRule::EvenOdd { 0 } else { 1 });
+            cc.u(0);
+            // same band as `curve_case`
+            let delta = tol as f64 * 1.25 + eps + allow;
+            cc.f(delta as f32);
+            put_edges(&mut cc, &edges);
+            put_tris(&mut cc, &mesh);
+            (CaseOut { imp: o, orcl: orc.verdict }, Some(cc))
+        })
+    });
+}
+
 fn main() {
     let mut ctx = Ctx::from_args("C03");
     let n = ctx.n(1500, 50000);
@@ -979,6 +1090,11 @@ fn main() {
     let n = ctx.n(2000, 60000);
     for _ in 0..n {
         helper_case(&mut ctx);
+    }
+    // appended after the older families: their case ids (and with them corpus / replay files) are unchanged
+    let n = ctx.n(8, 400);
+    for _ in 0..n {
+        risky_case(&mut ctx);
     }
     ctx.finish();
 }
